@@ -357,6 +357,65 @@ fn fesrv_structured(cfg: &Cfg, rng: &mut Rng) {
     }
 }
 
+/// Well-framed requests with the prescribed descriptor count whose *body* breaks a validity rule of the
+/// protocol (reserved UUIDs; zero-length, wrapping or undefined-flag mappings): never dispatched.
+fn fesrv_invalid_bodies(cfg: &Cfg, rng: &mut Rng) {
+    let mut cases: Vec<(String, BeOp)> = Vec::new();
+    for (un, u) in [("nil", [0u8; 16]), ("all-ones", [0xffu8; 16])] {
+        cases.push((format!("uuid-{un}"), BeOp::Add(u)));
+        cases.push((format!("uuid-{un}"), BeOp::Remove(u)));
+        cases.push((format!("uuid-{un}"), BeOp::Lookup(u)));
+    }
+    let maps: [(&str, u64, u64, u64, u64); 8] = [
+        ("len-zero", 0, 0, 0, 0),
+        ("len-zero-rw", 0x1000, 0x2000, 0, 1),
+        ("file-offset-wraps", u64::MAX, 0, 2, 0),
+        ("file-offset-wraps-by-one", u64::MAX - 0xfff, 0, 0x1001, 1),
+        ("region-offset-wraps", 0, u64::MAX, 2, 0),
+        ("flag-bit-1", 0, 0, 0x1000, 2),
+        ("flag-bit-63", 0, 0, 0x1000, 1 << 63),
+        ("flag-bit-32", 0, 0, 0x1000, 1 | 1 << 32),
+    ];
+    for (mn, fo, so, len, fl) in maps {
+        assert!(!spec::valid::mmap(fo, so, len, fl));
+        let id = rng.next() as u8;
+        cases.push((mn.to_string(), BeOp::Map(id, [0; 7], fo, so, len, fl)));
+        cases.push((mn.to_string(), BeOp::Unmap(id, [0; 7], fo, so, len, fl)));
+    }
+    for (cname, op) in cases {
+        for (reply_ack, need_reply) in [(false, false), (true, true), (false, true)] {
+            let h = Arc::new(Mutex::new(RecFrontend::default()));
+            h.lock().unwrap().out = Some(FeOut::Val(0));
+            let mut srv = FrontendReqHandler::new(h.clone()).expect("FrontendReqHandler");
+            srv.set_reply_ack_flag(reply_ack);
+            let peer_fd = unsafe { libc::dup(srv.get_tx_raw_fd()) };
+            let (body, want) = op.wire();
+            let files: Vec<std::fs::File> = (0..want).map(|_| sys::memfd("c06", 4096)).collect();
+            let fds: Vec<RawFd> = files.iter().map(|f| f.as_raw_fd()).collect();
+            let flags = F_VERSION1 | if need_reply { F_NEED_REPLY } else { 0 };
+            sys::send_all(peer_fd, &spec::msg(op.code(), flags, &body), &fds).expect("send");
+            let res = util::catch(|| srv.handle_request());
+            report::eval(1);
+            report::count("fesrv.invalid-bodies", 1);
+            report::distinct_str(&format!("fesrv-body:{}:{cname}:{reply_ack}:{need_reply}", op.name()));
+            let calls = h.lock().unwrap().log.len();
+            match res {
+                Err(p) => report::violation(&format!("C06:fesrv:{}:panic", op.name()), jo! {"body" => cname.as_str(), "panic" => p.msg, "at" => p.location}, cfg.replay("fesrv")),
+                Ok(r) => {
+                    if calls != 0 || r.is_ok() {
+                        report::violation(
+                            &format!("C06:fesrv:{}:invalid-body-dispatched", op.name()),
+                            jo! {"request" => op.name(), "body" => cname.as_str(), "need_reply" => need_reply, "reply_ack" => reply_ack, "handler_invocations" => calls, "result" => format!("{r:?}")},
+                            cfg.replay("fesrv"),
+                        );
+                    }
+                }
+            }
+            sys::close(peer_fd);
+        }
+    }
+}
+
 fn fesrv_stream(cfg: &Cfg, rng: &mut Rng, case: &str) {
     let h = Arc::new(Mutex::new(RecFrontend::default()));
     h.lock().unwrap().out = Some(match rng.below(3) {
@@ -432,6 +491,7 @@ pub fn run(cfg: &Cfg) {
     }
     if (part.is_empty() && cfg.shard == 0) || part == "all" || part == "fesrv" {
         fesrv_structured(cfg, &mut rng);
+        fesrv_invalid_bodies(cfg, &mut rng);
     }
     if part.is_empty() || part == "all" {
         for _ in 0..cfg.pick(3000, 40000) {
